@@ -131,7 +131,7 @@ reg('C07', 'fault_enumeration',
     'all 256 values, every length field rewritten to negative / zero / at-over-far-over spellings, the content of every typed element replaced by 35 special words (NaN, Infinity, exponents, impossible dates), truncation at every offset, '
     'seeded multi-point mutation, random byte strings; the same at file level (record prefixes, block trailers, terminator, '
     'embedded message faults) through both readers and both extraction tools in-process, and the two extraction commands as real '
-    'processes (no traceback on stderr), three tools incl. mideu convert, also on valid-but-awkward files (carriers that are full after sorting, non-numeric PDS tags), 23 ICC tails and BER long-form lengths (0x81..0x84 with values pointing back at the tag, at the length byte, nowhere, far ahead) on every DE55; paramconv among the tools; one file in seven read through a stream that cannot seek or tell; decoding repeated in child interpreters started with -bb, -O and warnings-as-errors; messages ending inside their own header; every guarded call under a kernel-enforced CPU allowance (time spent in C code, e.g. a backtracking pattern, is a violation with the input as witness) and 300 merchant-location shapes per encoding decoded in a CPU-limited child; CPU time for 8 MB vs 1 MB of the same records must scale under 24x. Non-termination is decided as bounded '
+    'processes (no traceback on stderr), three tools incl. mideu convert, also on valid-but-awkward files (carriers that are full after sorting, non-numeric PDS tags), 23 ICC tails and BER long-form lengths (0x81..0x84 with values pointing back at the tag, at the length byte, nowhere, far ahead) on every DE55; paramconv among the tools; one file in seven read through a stream that cannot seek or tell; decoding repeated in child interpreters started with -O, -OO, -X utf8 and -I; messages ending inside their own header; every guarded call under a kernel-enforced CPU allowance (time spent in C code, e.g. a backtracking pattern, is a violation with the input as witness) and 300 merchant-location shapes per encoding decoded in a CPU-limited child; CPU time for 8 MB vs 1 MB of the same records must scale under 24x. Non-termination is decided as bounded '
     'progress (20 000 + 100 executed cardutil lines per input byte), not wall-clock.',
     'Bounded progress stands in for termination (worst legitimate path measured < 10 lines/byte). vmon/ref/codec.py lays out the bases. '
     'A hang inside C code emits no line events; it is ended by the kernel-enforced CPU allowance and reported with the breadcrumb of the call.')
@@ -161,7 +161,7 @@ reg('C06', 'exploration',
     'codecs), VBS and 1014, packaged / variant / generated configurations, three writer APIs: file bytes equal the reference '
     'framing of the reference encodings, and the read-back list satisfies the C01 relation element-wise. Isolation: 2..4 reader '
     'and writer programs (some readers hit an injected fault) driven under seeded schedules at operation granularity, and 8 '
-    'threads with a 1 microsecond switch interval; 32 (thorough 192) fresh child processes whose first cardutil calls are the first records of 8 threads; a reader reading through another reader and a reader parked in its source while others must progress; two round trips of more than 1 and 2 MiB; throwaway configuration copies; files in which a blank fixed element makes one whole 1014 block equal to the fill; records with the same keys and other sizes next to each other; the reader walked with list, next-then-for and for/break/for; a compact round-trip workload repeated in child interpreters that import only cardutil (-bb, -O, both, BytesWarning / DeprecationWarning as errors, two daylight-saving time zones, wall-clock times in the skipped and the repeated hour); each instance\'s trace (records, record_number, last_record, error context, '
+    'threads with a 1 microsecond switch interval; 32 (thorough 192) fresh child processes whose first cardutil calls are the first records of 8 threads; a reader reading through another reader and a reader parked in its source while others must progress; two round trips of more than 1 and 2 MiB; throwaway configuration copies; files in which a blank fixed element makes one whole 1014 block equal to the fill; records with the same keys and other sizes next to each other; the reader walked with list, next-then-for and for/break/for; a compact round-trip workload repeated in child interpreters that import only cardutil (-O, -OO, -X utf8, -I, two daylight-saving time zones, wall-clock times in the skipped and the repeated hour); each instance\'s trace (records, record_number, last_record, error context, '
     'file bytes) must equal its solo trace. The run is inconclusive unless thread alternations were actually observed.',
     'Trusts vmon/ref/codec.py and vmon/ref/blocking.py. Each thread owns its files and message objects. Per-thread step counters.')
 
